@@ -91,6 +91,10 @@ def _callee_name(c):
 
 def _is_write_open(c):
     if _callee_name(c) == "open":
+        if any(kw.arg is None for kw in c.keywords) or any(isinstance(a, ast.Starred) for a in c.args):
+            raise AnalysisError(f"C16: `{ast.unparse(c)[:60]}` passes its arguments through */** : mode and encoding of the file cannot be read off the call")
+        if (len(c.args) > 1 and not isinstance(c.args[1], ast.Constant)) or any(kw.arg == "mode" and not isinstance(kw.value, ast.Constant) for kw in c.keywords):
+            raise AnalysisError(f"C16: the mode of `{ast.unparse(c)[:60]}` is not a constant")
         mode = None
         if len(c.args) > 1 and isinstance(c.args[1], ast.Constant):
             mode = c.args[1].value
@@ -486,6 +490,8 @@ def rule_r3(ctx):
     what = "-C|name-guard"
     if loop is None:
         raise AnalysisError("C16-R3: the -C processing loop was not found")
+    if guard is None and isinstance(loop.iter, ast.Call) and isinstance(loop.iter.func, ast.Name) and loop.iter.func.id in mi.functions:
+        raise AnalysisError(f"C16-R3: the -C arguments are parsed by `{loop.iter.func.id}(...)`, a helper the loop iterates over: where unknown names are refused lies in that helper, which this rule does not follow")
     if guard is None:
         rr.fail("C16-R3|__main__|no-name-guard", f"{mi.rel}: the -C loop has no guard that raises for an unknown option name", what=what)
     else:
@@ -562,6 +568,10 @@ def _validates_before_store(fn, val):
         if isinstance(n, ast.If) and "isinstance" in ast.unparse(n.test) and "list" in ast.unparse(n.test):
             list_branch = n
     if list_branch is None:
+        delegated = [c for c in ast.walk(fn) if isinstance(c, ast.Call) and isinstance(c.func, ast.Attribute) and isinstance(c.func.value, ast.Name) and c.func.value.id == "self"
+                     and any(isinstance(a, ast.Name) and a.id == val for a in c.args)]
+        if delegated:
+            raise AnalysisError(f"C16-R3: the descriptor hands the value to `self.{delegated[0].func.attr}(...)`: the validation lies in that method, which this rule does not follow")
         return "no-list-branch"
     checks = [s for s in list_branch.body if isinstance(s, ast.If) and isinstance(s.test, ast.Compare) and isinstance(s.test.ops[0], ast.NotIn) and isinstance(s.test.left, ast.Name) and s.test.left.id == val and any(isinstance(x, ast.Raise) for x in s.body)]
     if not checks:
